@@ -590,7 +590,8 @@ ScalarFollow(M, before, after, obj) ==
         s == EffSrc(F, obj)
     IN IF ~HasFlags(a0) \/ ~HasFlags(a) \/ F.kind = "custom" \/ F.placeholder THEN {}
        ELSE IF F.kind = "prim" /\ ~F.nullable THEN
-            (IF ~a0.null /\ ~(a.v = s.s \/ (a.v \in ZeroSet(F.cls) /\ s.s \in ZeroSet(F.cls))) THEN {V("C09.scalar.follow", F, "")} ELSE {})
+            \* a null attribute denotes the zero value: it follows a source that holds zero (or is absent)
+            (IF ~a0.null /\ ~PrimFollows(F, a, s) THEN {V("C09.scalar.follow", F, "")} ELSE {})
        ELSE IF F.kind = "obj" /\ s.t \in {"ptr", "st"} /\ ~before.null THEN ScalarFollow(SubOf(F), a0, a, Deref(s))
        ELSE {}
     : i \in DOMAIN M.fields }
